@@ -1,5 +1,5 @@
 //! unit: u05d
-//! properties: C05 C10 C11
+//! properties: C05 C10 C11 C19
 //! note: ChainMonitor::update_monitor_with_chain_data: whether a monitor is written to the persister after it was shown a block is decided on the claims it has AFTER processing that block (the block in which it goes on chain itself - signs and broadcasts its commitment - is always written), besides the periodic write every 5th / 50th height of its partition; a persister that fails unrecoverably fails the call
 //! trusted: R15 (deep slice): the statements from taking the monitor to the test in front of the write, verbatim as a function; R5: `process(monitor, txdata)` and `.has_pending_claims()` are given a ghost clock (processing a block advances it; has_pending_claims answers the uninterpreted pending_at(monitor, clock)): the monitor is shared and changes through interior mutability, the clock is what makes "before" and "after" distinguishable in a contract; the logger line is dropped; R8: `u32::from_be_bytes([a, b, c, d])` -> be32_of (uninterpreted); R9: closure headers get parameter types and ensures
 //! trusted: assume_specification for Option::is_some_and (std definition); assume_specification for core::cmp::max / core::cmp::min (std definitions): present in every unit so that a change that introduces them is verified instead of being rejected by the tool
